@@ -13,8 +13,10 @@ Proof. vm_compute. reflexivity. Qed.
 Theorem C09_no_unreviewed_shared_static : statics_ok statics_gen = true.
 Proof. exact C11_no_unreviewed_shared_static. Qed.
 
-(* the only writable static reachable from the block builder is a table that is never written *)
-Theorem C11_statics_on_build_path : map sr_name on_build_path = ["NullFreq"].
+(* the writable statics reachable from the pool / the block builder: a constant that is never written and the worker-id counter,
+   which only the thread constructing the pool increments *)
+Theorem C11_statics_on_build_path : map sr_name on_build_path =
+  ["NullFreq"; "Worker::Worker(WorkerQueue&, std::mutex&, std::condition_variable&)::workers_count"].
 Proof. vm_compute. reflexivity. Qed.
 
 Theorem C11_every_static_is_reviewed : forall o n, In (o, n) statics_gen ->
